@@ -31,7 +31,7 @@ from .common import AnalysisError
 # Part A: buffer accounting
 # =================================================================================================
 
-READ_ENTRY = ('read', 'readinto', 'readexactly', 'read1', 'readall', 'readline', 'readlines', 'readuntil', 'peek', '__next__', '__anext__')
+READ_ENTRY = ('read', 'readinto', 'readexactly', 'read1', 'readall', 'readline', 'readlines', 'readuntil', 'readany', 'peek')
 _WRAPPERS = ('bytes', 'bytearray', 'memoryview')
 
 
@@ -174,6 +174,14 @@ def _blocks(fn: pf.FuncDef):
     return out
 
 
+def _untuple(st: ast.stmt) -> List[ast.stmt]:
+    """`a, b = x, y` -> `a = x`, `b = y` (the right-hand sides here are evaluated before any store, which does not matter for the classification)."""
+    if isinstance(st, ast.Assign) and len(st.targets) == 1 and isinstance(st.targets[0], (ast.Tuple, ast.List)) and isinstance(st.value, (ast.Tuple, ast.List)) \
+            and len(st.targets[0].elts) == len(st.value.elts) and not any(isinstance(x, ast.Starred) for x in st.targets[0].elts + st.value.elts):
+        return [ast.copy_location(ast.Assign(targets=[t], value=v), st) for t, v in zip(st.targets[0].elts, st.value.elts)]
+    return [st]
+
+
 def _lin(e: Optional[ast.AST], fn: pf.FuncDef, canon: _Canon) -> linform.Lin:
     if e is None:
         return linform.const(0)
@@ -200,7 +208,7 @@ def analyse_buffer(rel: str, cls: ast.ClassDef, btxt: str) -> Optional[BufReport
             return canon.visit(copy.deepcopy(e))
 
         for block in _blocks(fn):
-            for st in block:
+            for st in [x for st0 in block for x in _untuple(st0)]:
                 if isinstance(st, (ast.Assign, ast.AnnAssign, ast.AugAssign)):
                     tgts = st.targets if isinstance(st, ast.Assign) else [st.target]
                     flat = [x for t in tgts for x in (t.elts if isinstance(t, (ast.Tuple, ast.List)) else [t])]
@@ -358,8 +366,14 @@ def analyse_buffer(rel: str, cls: ast.ClassDef, btxt: str) -> Optional[BufReport
                     raise AnalysisError(f'{where}.{fn.name}: `{text}` compares the position {ptxt} with a request: not analysed')
 
             def has_atom(e: ast.AST) -> bool:
-                t = pf.nsrc(canon.visit(copy.deepcopy(pf.expand_locals(fn, e))))
-                return lbkey in t or (ptxt is not None and ptxt in t)
+                # len(B) or the position, outside the bounds of a slice of B (those are judged with the hand-outs)
+                def rec(x: ast.AST) -> bool:
+                    if isinstance(x, ast.Subscript) and isinstance(x.slice, ast.Slice) and pf.nsrc(x.value) == btxt:
+                        return False
+                    if pf.nsrc(x) == lbkey or (ptxt is not None and pf.nsrc(x) == ptxt):
+                        return True
+                    return any(rec(c) for c in ast.iter_child_nodes(x))
+                return rec(canon.visit(copy.deepcopy(pf.expand_locals(fn, e))))
 
             def visit(e: ast.AST) -> None:
                 if isinstance(e, ast.Subscript) and isinstance(e.slice, ast.Slice) and pf.nsrc(canon.visit(copy.deepcopy(e.value))) == btxt:
@@ -1653,7 +1667,9 @@ class Delivery:
         if expect_forward and exits:
             fw = [e for e in exits if e.forwarded]
             if not fw:
-                self._problem('dropped', fc, t.fn, f'{t.fn.name} receives {self._what()} but no call on any path passes it on: it never reaches the request')
+                self._problem('dropped', fc, t.fn, f'{(t.cls.name + ".") if t.cls else ""}{t.fn.name} receives {self._what()} but no call on any path passes it on: it never reaches the request')
+                for e in exits:
+                    e.forwarded = True  # the blame is assigned here, not again in every caller
             elif len(fw) != len(exits):
                 # a path that calls, without the datum, a function that receives it on another path issues the request without it
                 found = False
